@@ -384,6 +384,9 @@ pub struct CParams {
     pub large: usize,
     /// also use every container a second time after every single edge
     /// operation / edge move applied through the node handles
+    /// > 0: the hub families (every degree 1..=hubs at one node of 4) instead
+    #[serde(default)]
+    pub hubs: usize,
     #[serde(default)]
     pub mutate: bool,
     /// the other encodings / entry points of serde_json and serde_cbor
@@ -429,8 +432,9 @@ pub fn sweep<F: Fl>(job: &Job, out: &mut Out) {
         }
         return;
     }
-    if p.large > 0 {
-        for (gi, (name, n, conns)) in crate::gsweep::large_graphs(p.large).iter().enumerate() {
+    if p.large > 0 || p.hubs > 0 {
+        let graphs = if p.hubs > 0 { crate::gsweep::hub_graphs(p.hubs) } else { crate::gsweep::large_graphs(p.large) };
+        for (gi, (name, n, conns)) in graphs.iter().enumerate() {
             if gi % job.nshards != job.shard {
                 continue;
             }
